@@ -75,8 +75,8 @@ RRStackOf(n) == [i \in 1..n |-> RROf(i)]
 StaticTab == << [pat |-> <<"e",".","x">>, proto |-> "udp", nhost |-> "10.0.1.4", nport |-> 6001],
                 [pat |-> <<"*",".","y">>, proto |-> "tcp", nhost |-> "10.0.1.5", nport |-> 0] >>
 StaticTabD == StaticTab \o << [pat |-> DEFAULT, proto |-> "udp", nhost |-> "10.0.1.6", nport |-> 0] >>
-ToHost(c) == CASE c \in {"exact"} -> <<"e",".","x">> [] c = "wild" -> <<"w",".","y">> [] OTHER -> <<"z",".","z">>
-ToHostStr(c) == CASE c = "exact" -> "e.x" [] c = "wild" -> "w.y" [] OTHER -> "z.z"
+ToHost(c) == CASE c \in {"exact"} -> <<"e",".","x">> [] c = "wild" -> <<"w",".","y">> [] c = "ext" -> <<"e",".","x","y","z">> [] c = "pre" -> <<"p","e",".","x">> [] OTHER -> <<"z",".","z">>
+ToHostStr(c) == CASE c = "exact" -> "e.x" [] c = "wild" -> "w.y" [] c = "ext" -> "e.xyz" [] c = "pre" -> "pe.x" [] OTHER -> "z.z"
 
 Names == << [raw |-> "svc.example.com", user |-> "", host |-> "svc.example.com", hasat |-> FALSE],
             [raw |-> "sos@emergency.example", user |-> "sos", host |-> "emergency.example", hasat |-> TRUE],
